@@ -96,6 +96,11 @@ func Main(args []string) {
 	depthOverride := fs.Int("depth", 0, "override the depth of every run")
 	only := fs.String("only", "", "execute only runs whose name contains this")
 	fs.Parse(args)
+	// github.com/99designs/keyring connects to the D-Bus session bus in its package init; without
+	// an address godbus autolaunches a dbus-daemon that outlives every worker and CLI process
+	if os.Getenv("DBUS_SESSION_BUS_ADDRESS") == "" {
+		os.Setenv("DBUS_SESSION_BUS_ADDRESS", "unix:path=/nonexistent")
+	}
 	bin, err := BuildBinary()
 	if err != nil {
 		fmt.Fprintln(os.Stderr, "harness error:", err)
